@@ -8,7 +8,7 @@ use unicode_width::UnicodeWidthChar;
 use crate::explore::{bfs, run_op, sweep, Base, Local, Trans};
 use crate::judge::*;
 use crate::ops::{apply, build, Op, P};
-use crate::props::{gen_bases, geoms, large_bases, repeat_op, with_poison, Guard};
+use crate::props::{gen_bases, geoms, large_bases, repeat_op, sweep_with_extras, with_poison, Guard};
 use crate::refscreen::{compare, fresh, Comp, Model, ALL_COMPS, DECCOLM};
 use crate::report::{Collector, Violation};
 use crate::seeds::*;
@@ -174,6 +174,8 @@ fn mixed_alphabet(s: &Screen) -> Vec<Op> {
         Op::Rm(vec![3], true),
         Op::Rm(vec![25], true),
         Op::Sm(vec![25], true),
+        Op::DefineCharset("0".into(), "(".into()),
+        Op::ShiftOut,
         Op::Sgr(vec![7, 33]),
         Op::SaveCursor,
         Op::RestoreCursor,
@@ -782,7 +784,7 @@ pub fn c15(c: &Collector, g: &mut Guard) {
     // mode changes, resizes, DECCOLM, edits), judged model-free against a new screen
     let bdepth = if c.thorough() { 4 } else { 3 };
     let seeds = small_bfs_seeds(c, (3, 2));
-    let st = bfs(c, &seeds, bdepth, 4_000_000, mixed_alphabet, |c, t, local| {
+    let st = crate::explore::bfs_nd(c, &seeds, bdepth, 4_000_000, mixed_alphabet, |c, t, local| {
         if matches!(t.op, Op::Reset) {
             local.count("bfs_resets");
             c15_compare(c, t, "E2.bfs.reset", local, 1);
@@ -820,10 +822,12 @@ pub fn c15(c: &Collector, g: &mut Guard) {
                     }
                 }
             }
-            return false; // the power-on state itself is a seed already
+            // explored further, and never merged with states seen before (a flag the key cannot
+            // see may have been left stale by exactly this reset; the saved-cursor stack survives)
+            return expand_ok(t);
         }
         expand_ok(t)
-    });
+    }, |op| matches!(op, Op::Reset));
     c.bound("bfs_levels_3x2", json!(st.levels));
     c.bound("geometries", json!(gs));
     g.need(c, "resets");
@@ -1000,6 +1004,9 @@ fn tab_ops() -> Vec<Op> {
     for h in ["", "0", "3", "2"] {
         v.push(csi(h, 'g'));
     }
+    for h in crate::props::big_numbers() {
+        v.push(csi(&h, 'g'));
+    }
     with_poison(v)
 }
 
@@ -1138,7 +1145,7 @@ pub fn c18(c: &Collector, g: &mut Guard) {
         }
     }
     c.count("stop_set_bases", bases.len() as u64);
-    sweep(c, &bases, |_| {
+    sweep_with_extras(c, &bases, 10, |_| {
         let mut v = tab_ops();
         // use the stops, reset, use them again (a cached view of the stops must not survive RIS / edits)
         for chain in ["\t\x1bc\t", "\t\x1b[3g\r\t", "\t\x1bH\r\t\t", "\t\x1b[g\r\t", "\t\x1bc\x1b[5G\x1bH\r\t"] {
@@ -1346,9 +1353,10 @@ pub fn c14(c: &Collector, g: &mut Guard) {
         hidden_cursor: false,
     };
     let bases = gen_bases(c, &spec);
-    sweep(
+    sweep_with_extras(
         c,
         &bases,
+        8,
         |_| {
             let mut v = with_poison(vec![Op::SaveCursor, Op::RestoreCursor, Op::Feed(vec!["\x1b7".into()], true), Op::Feed(vec!["\x1b8".into()], true), Op::Feed(vec!["\x1b7\x1b[H\x1b[0m\x1b8".into()], true)]);
             // unknown escapes whose code point merely ends in the byte of 7 / 8 / c must not touch the stack
@@ -2336,6 +2344,20 @@ pub fn c20(c: &Collector, g: &mut Guard) {
             // char-level parser in 8-bit mode
             for s in ["\x1b(0q", "\x1b)0\x0eq\x0fq", "\x1b(U\u{e9}", "\x1b)V\x0e!"] {
                 v.push(Op::Feed(vec![s.to_string()], false));
+            }
+            // designators whose code point merely ends in the byte of B / 0 / U / V
+            for ch in ['\u{142}', '\u{130}', '\u{155}', '\u{156}', '\u{242}', '\u{2042}', '\u{ff30}', '\u{1f655}'] {
+                v.push(Op::DefineCharset(ch.to_string(), "(".into()));
+                v.push(Op::DefineCharset(ch.to_string(), ")".into()));
+                v.push(Op::Feed(vec![format!("\x1b({}\u{e9}q", ch)], false));
+                v.push(Op::Feed(vec![format!("\x1b){}\x0e\u{e9}q", ch)], false));
+            }
+            // long runs of charset controls between two draws (revision counters that wrap)
+            for n in [254usize, 255, 256, 257, 511, 512, 513] {
+                v.push(Op::Feed(vec![format!("q\x1b(0{}q", "\x0f".repeat(n))], false));
+                v.push(Op::Feed(vec![format!("q\x1b)U\x0e{}\u{e9}", "\x0f\x0e".repeat(n / 2))], false));
+                v.push(Op::Feed(vec![format!("q\x1b(U{}\u{e9}", "\x1b(U".repeat(n))], false));
+                v.push(Op::Feed(vec![format!("\x1b(0q{}q", "\x1b7\x1b8".repeat(n / 2))], false));
             }
             // shifts / designators in odd places: inside a CSI, inside an OSC string, after ESC
             for s in ["\x1b[\x0eHq", "\x1b[5\x0fCq", "\x0e\x1b[\x0fHq", "\x1b]0;a\x0eb\x07q", "\x1b\x0eq", "\x1b[\x1b(0q", "\x1b(\x0eq", "\x1b)0\x1b[\x0e;Hq"] {
